@@ -816,7 +816,7 @@ def gen_c16(rnd, n, thorough=False):
                 lines.append("hdrof %s" % gname)
         cases.append({'id': 'c16-%d' % c, 'lines': lines, 'tags': {'layout': lname, 'src': srckind, 'dest': destkind, 'sub': hist}})
         if c == 1:
-            cases.append(many_files_case(rnd, 'c16-%d-many' % c, ['sum', 'sumdiff', 'sumcopy']))
+            cases.append(many_files_case(rnd, 'c16-%d-many' % c, ['sum', 'sumcopy', 'sumdiff']))     # (sum-diff after sum-copy: with a missing destination AND an unreadable source, which of the two concurrent failures is reported is not determined)
     # copy over three archives where the middle one needs no write once the finest is written while the
     # coarsest still differs: success means all of them were brought in line
     for j in range(2):
